@@ -178,6 +178,13 @@ func encodeBag(s *bagSpec) (out []byte, order []int) {
 			} else {
 				bagLZ4.Reset(&buf)
 			}
+			// readers size their block buffers from the frame header: 64 KiB blocks for small chunks
+			// (the 4 MiB default, cleared on every decoder set-up, dominated the run), 4 MiB otherwise
+			bs := lz4.Block64Kb
+			if len(inner) > 64<<10 {
+				bs = lz4.Block4Mb
+			}
+			_ = bagLZ4.Apply(lz4.BlockSizeOption(bs))
 			_, _ = bagLZ4.Write(inner)
 			_ = bagLZ4.Close()
 			stored = buf.Bytes()
